@@ -548,7 +548,7 @@ def main(argv=None):
         jobs = a.jobs
     else:
         jobs = min(nshards, os.cpu_count() or 1)
-    budget = getattr(mod, "BUDGET_S", (300, 7200))
+    budget = getattr(mod, "BUDGET_S", (300, 1500))
     budget_s = float(os.environ.get("VERIF_BUDGET_S", budget[1] if a.tier == "thorough" else budget[0]))
     tasks = [(pid, a.tier, seed, k, nshards, budget_s) for k in range(nshards)]
     results = []
